@@ -10,7 +10,7 @@
 (c) write faults: capacity-limited stream model (coq/Maths/WriteFault.v) vs real saves under RLIMIT_FSIZE=k for many k,
     /dev/full, and a missing directory.
 """
-import os, sys, json, shutil
+import os, sys, json, shutil, re, glob, subprocess, resource, signal
 import core, ombuild, gen, models
 
 PROP = "C18"
@@ -289,12 +289,175 @@ def main(replay=None):
                                  "`%s` (kind fmt=mat n k): file-size limit %d of %d bytes -> `%s`; required: an exception" % (c, k, total, i),
                                  dict(kind="write", wcases=[c], meta=[[int(c.split()[2]), 3, int(c.split()[4]), k, total]], wmodel=["c18 5 1 %d %d" % (k, total)], impl=[i]))
 
+
+    # ---------------- (d) strict format selection by suffix / name ---------------------------------------------------------
+    sdist = {}; smis = 0
+    if rp is None or rp.get("kind") in ("suffix", "tool"):
+        # the registered suffixes and identities, read from the current sources
+        inc = os.path.join(ombuild.REPO, "OpenMEEGMaths")
+        reg = {}; ident = {}
+        for hdr in sorted(glob.glob(os.path.join(inc, "include", "*IO.H"))):
+            cls = os.path.basename(hdr)[:-2]
+            if cls in ("MathsIO",): continue
+            sf = re.findall(r'push_back\(\s*"(\w+)"\s*\)', open(hdr).read())
+            csrc = os.path.join(inc, "src", cls + ".C")
+            idm = re.search(r'Identity\(\s*"(\w+)"\s*\)', open(csrc).read()) if os.path.exists(csrc) else None
+            if sf and idm:
+                ident[cls] = idm.group(1)
+                for x in sf: reg[x] = idm.group(1)
+        FID = {"ascii": 0, "binary": 1, "tex": 2, "matlab": 3}
+        if len(reg) < 4 or any(v not in FID for v in reg.values()):
+            ck.violation("suffix-table", "cannot read the registered suffixes / identities from OpenMEEGMaths/include/*IO.H: %s" % reg, dict(kind="suffix"), found_input=False)
+        else:
+            variants = []
+            for sx in sorted(reg):
+                variants += [sx, sx + "~", sx + "2", sx + "x", sx[:-1], sx.upper(), sx.capitalize(), sx[0] + sx, sx + sx]
+            variants += ["", "xyz", "dat"]
+            sd = os.path.join(wd, "sfx"); os.makedirs(sd, exist_ok=True)
+            names = [os.path.join(sd, "f." + v) for v in variants] + [os.path.join(sd, "nosuffix")]
+            sid = {}
+            def idof(x): return sid.setdefault(x, 100 + len(sid))
+            table = []
+            for sx in sorted(reg): table += [idof(sx), FID[reg[sx]]]
+            fmt_names = sorted(FID) + [x.upper() for x in sorted(FID)] + [x[:-1] for x in sorted(FID)] + [x + "2" for x in sorted(FID)] + ["", "default "]
+            allnames = names + fmt_names
+            scases = []; smodel = []; slabel = []
+            for k, nme in enumerate(names):
+                base = os.path.basename(nme); dot = "." in base; sx = base.split(".", 1)[1] if dot else ""
+                scases.append("c18 7 0 %d" % k); smodel.append("c18 7 %d %d %s" % (1 if dot else 0, idof(sx), " ".join(map(str, table)))); slabel.append(("format_from_suffix", base))
+            for j, fn in enumerate(fmt_names):
+                scases.append("c18 7 1 %d" % (len(names) + j)); slabel.append(("format", fn))
+                smodel.append("c18 7 1 %d %s" % (idof("#" + fn), " ".join(str(x) for nm in sorted(FID) for x in (idof("#" + nm), FID[nm]))))
+            envs = {"C18_SUFFIX_NAMES": "\x1f".join(allnames)}
+            sm = core.run_model(smodel); rc, si, err = core.run_harness(hb, scases, wd, tag="sfx", env=envs)
+            for (fn, arg), c, m, i in zip(slabel, scases, sm, si):
+                sdist[fn] = sdist.get(fn, 0) + 1
+                mt, it = m.split(), i.split()
+                ok = (mt[0] == "0" and it[0] == "0" and mt[1] == it[1]) or (mt[0] != "0" and it[0] not in ("0",) and not i.startswith("CRASH"))
+                if not ok:
+                    smis += 1
+                    ck.violation("%s(%r)" % (fn, arg), "MathsIO::%s(\"%s\") %s; required: %s (registered suffixes %s)" % (fn, arg, "selected format #%s" % it[1] if it[0] == "0" else "ended as " + i, "format #%s" % mt[1] if mt[0] == "0" else "an exception (unknown suffix / format name)", reg),
+                                 dict(kind="suffix", cases=[c], model=[m], impl=[i], names=allnames))
+            # Matrix::save by name: a registered suffix selects its format, anything else falls back to the default choice
+            vcases = ["c18 7 2 %d" % k for k in range(len(names))]
+            rc, vi, err = core.run_harness(hb, vcases, wd, tag="sfs", env=envs)
+            fallback = None
+            for nme, o in zip(names, vi):
+                if os.path.basename(nme) == "f.xyz" and o.split()[0] == "0": fallback = o.split()[1]
+            for nme, c, o in zip(names, vcases, vi):
+                base = os.path.basename(nme); sx = base.split(".", 1)[1] if "." in base else None
+                sdist["Matrix::save(name)"] = sdist.get("Matrix::save(name)", 0) + 1
+                want = str(FID[reg[sx]]) if sx in reg else fallback
+                if o.startswith("CRASH") or o.split()[0] != "0" or (want is not None and o.split()[1] != want):
+                    smis += 1
+                    ck.violation("Matrix::save(%r) format" % base, "Matrix::save(\"%s\") wrote format class %s; required: %s" % (base, o, ("the format registered for ." + sx) if sx in reg else "the default choice for an unknown suffix (class %s, as for f.xyz)" % fallback),
+                                 dict(kind="suffix", cases=[c], impl=[o], names=allnames))
+            # om_matrix_convert -o : strict
+            tool = os.path.join(bdir, "apps", "tools", "om_matrix_convert")
+            src_txt = os.path.join(sd, "in.txt"); open(src_txt, "w").write("1 2 3\n4 5 6\n")
+            tenv = dict(os.environ); tenv.update(OMP_NUM_THREADS="1", OPENBLAS_NUM_THREADS="1")
+            libs = ombuild.find_libs(bdir); tenv["LD_LIBRARY_PATH"] = ":".join(sorted({os.path.dirname(x) for x in libs.values()})) + ":" + tenv.get("LD_LIBRARY_PATH", "")
+            for v in variants:
+                outp = os.path.join(sd, "conv." + v)
+                if os.path.exists(outp): os.remove(outp)
+                pr = subprocess.run([tool, "-i", src_txt, "-o", outp], stdout=subprocess.PIPE, stderr=subprocess.PIPE, env=tenv, timeout=60)
+                sdist["om_matrix_convert -o"] = sdist.get("om_matrix_convert -o", 0) + 1
+                if (pr.returncode == 0) != (v in reg):
+                    smis += 1
+                    ck.violation("om_matrix_convert -o conv.%s" % v, "om_matrix_convert -i in.txt -o conv.%s exited with status %d; required: %s" % (v, pr.returncode, "0" if v in reg else "non-zero (unknown suffix)"),
+                                 dict(kind="tool", argv=["om_matrix_convert", "-i", "in.txt", "-o", "conv." + v], status=pr.returncode))
+
+    # ---------------- (e) the other writers: Mesh::save (5 formats), Geometry::save, Sensors::save, conversion tools -----------
+    xdist = {}; xmis = 0
+    WR = {0: "Mesh::save(.tri)", 1: "Mesh::save(.bnd)", 2: "Mesh::save(.off)", 3: "Mesh::save(.mesh)", 4: "Mesh::save(.vtk)", 5: "Geometry::save(.geom)", 6: "Sensors::save"}
+    FAULT = {-1: "/dev/full", -2: "missing directory", -4: "path below a regular file", -5: "the name is an existing directory"}
+    if rp is None or rp.get("kind") in ("writer", "tool"):
+        m3 = models.nested([0.8, 0.9, 1.0], [1.0, 0.0125, 1.0], level=0, names=["cortex", "skull", "scalp"])
+        mdir = os.path.join(wd, "head2"); g2, c2 = models.write_model(m3, mdir)
+        sp = os.path.join(mdir, "sens.txt"); open(sp, "w").write("0.1 0.2 1.1\n0.3 -0.2 1.05\n-0.4 0.1 1.0\n")
+        envw = {"C18_GEOM": g2, "C18_COND": c2, "C18_SENSORS": sp}
+        rc, po, err = core.run_harness(hb, ["c18 6 %d -3" % w for w in WR], wd, tag="xp", env=envw)
+        xc = []; xm = []; xmeta = []
+        for w, o in zip(WR, po):
+            t = o.split()
+            if t[0] != "0" or int(t[1]) <= 0:
+                if w == 4: continue                 # vtk writer not available in this build
+                ck.violation("%s without fault" % WR[w], "an unfaulted save failed: `%s`" % o, dict(kind="writer", cases=["c18 6 %d -3" % w], impl=[o])); continue
+            total = int(t[1])
+            for k in sorted(set([0, 1, total // 2, total - 1, total, total + 5] + [rng.randint(0, total) for _ in range(3)])) + [-1, -2, -4, -5]:
+                xc.append("c18 6 %d %d" % (w, k)); xmeta.append((w, k, total))
+                xm.append("c18 5 %d %d %d" % (0 if k in (-2, -4, -5) else 1, 0 if k == -1 else (10 ** 12 if k < 0 else k), total))
+        if rp is not None and rp.get("kind") == "writer": xc = rp["cases"]; xm = rp["model_cases"]; xmeta = [tuple(x) for x in rp["meta"]]
+        if xc:
+            mm = core.run_model(xm); rc, xi, err = core.run_harness(hb, xc, wd, tag="xw", env=envw)
+            for c, mc, (w, k, total), m, i in zip(xc, xm, xmeta, mm, xi):
+                xdist[WR[w]] = xdist.get(WR[w], 0) + 1
+                exp_ok = m.split()[0] == "0"; got_ok = i.split()[0] == "0"
+                fault = "device full after %d of %d bytes (RLIMIT_FSIZE)" % (k, total) if k >= 0 else FAULT[k]
+                if i.startswith("CRASH") or exp_ok != got_ok:
+                    xmis += 1
+                    ck.violation("%s: %s" % (WR[w], "fault not reported" if got_ok else "fails without fault" if not i.startswith("CRASH") else "crash"),
+                                 "%s with %s %s (file holds %s bytes); required: %s" % (WR[w], fault, "crashed" if i.startswith("CRASH") else "returned normally" if got_ok else "threw", i.split()[-1], "success" if exp_ok else "an exception"),
+                                 dict(kind="writer", cases=[c], model_cases=[mc], meta=[[w, k, total]], impl=[i]))
+                elif k >= 0 and int(i.split()[-1]) > max(k, 0) and not exp_ok:
+                    xmis += 1
+                    ck.violation("%s wrote beyond the limit" % WR[w], "file holds %s bytes with a limit of %d" % (i.split()[-1], k), dict(kind="writer", cases=[c], model_cases=[mc], meta=[[w, k, total]], impl=[i]))
+        # conversion tools: exit status under the same faults
+        tdir = os.path.join(wd, "tools"); os.makedirs(tdir, exist_ok=True)
+        tenv = dict(os.environ); tenv.update(OMP_NUM_THREADS="1", OPENBLAS_NUM_THREADS="1")
+        libs = ombuild.find_libs(bdir); tenv["LD_LIBRARY_PATH"] = ":".join(sorted({os.path.dirname(x) for x in libs.values()})) + ":" + tenv.get("LD_LIBRARY_PATH", "")
+        tri = os.path.join(mdir, "cortex.tri"); tri2 = os.path.join(mdir, "skull.tri")
+        mtx = os.path.join(tdir, "in.txt"); open(mtx, "w").write("1 2 3\n4 5 6\n")
+        open(os.path.join(tdir, "regular"), "w").write("x")
+        TOOLS = {"om_mesh_convert": lambda o: ["-i", tri, "-o", o], "om_mesh_concat": lambda o: ["-i1", tri, "-i2", tri2, "-o", o],
+                 "om_matrix_convert": lambda o: ["-i", mtx, "-o", o]}
+        for tname, mk in TOOLS.items():
+            exe = os.path.join(bdir, "apps", "tools", tname); sfx = "txt" if tname == "om_matrix_convert" else "tri"
+            for fk in ("none", "limit0", "limit10", "devfull", "missingdir", "belowfile", "isdir"):
+                outp = os.path.join(tdir, "t_out." + sfx)
+                for pth in (outp,):
+                    if os.path.islink(pth) or os.path.isfile(pth): os.remove(pth)
+                    elif os.path.isdir(pth): os.rmdir(pth)
+                lim = None
+                if fk == "devfull": os.symlink("/dev/full", outp)
+                if fk == "missingdir": outp = os.path.join(tdir, "nodir", "t_out." + sfx)
+                if fk == "belowfile": outp = os.path.join(tdir, "regular", "t_out." + sfx)
+                if fk == "isdir": os.mkdir(outp)
+                if fk.startswith("limit"): lim = int(fk[5:])
+                def pre(lim=lim):
+                    signal.signal(signal.SIGXFSZ, signal.SIG_IGN)
+                    if lim is not None:
+                        soft, hard = resource.getrlimit(resource.RLIMIT_FSIZE); resource.setrlimit(resource.RLIMIT_FSIZE, (lim, hard))
+                try:
+                    pr = subprocess.run([exe] + mk(outp), stdout=subprocess.PIPE, stderr=subprocess.PIPE, env=tenv, timeout=120, preexec_fn=pre, cwd=tdir)
+                    status = pr.returncode
+                except subprocess.TimeoutExpired:
+                    status = "timeout"
+                xdist[tname] = xdist.get(tname, 0) + 1
+                if (status == 0) != (fk == "none"):
+                    xmis += 1
+                    ck.violation("%s -o (%s)" % (tname, fk), "%s %s with fault `%s` exited with status %s; required: %s" % (tname, " ".join(os.path.basename(x) if os.sep in x else x for x in mk(outp)), fk, status, "0" if fk == "none" else "non-zero"),
+                                 dict(kind="tool", tool=tname, fault=fk, status=status))
+
+    # ---------------- (f) exactly singular matrices: LAPACK's failure code must surface ---------------------------------------
+    gdist = {}
+    SING = {0: "Matrix [[1,2],[2,4]].inverse()", 1: "SymMatrix [[1,2],[2,4]].inverse()", 2: "SymMatrix [[1,2],[2,4]].solveLin(b)", 3: "SymMatrix [[1,2],[2,4]].posdefinverse()",
+            4: "Matrix(2,2)=0 .inverse()", 5: "SymMatrix(2)=0 .inverse()"}
+    if rp is None or rp.get("kind") == "singular":
+        gc = ["c18 8 %d" % k for k in SING]
+        rc, gi, err = core.run_harness(hb, gc, wd, tag="sg")
+        for k, c, i in zip(SING, gc, gi):
+            gdist[SING[k]] = i
+            if i.startswith("CRASH") or i.split()[0] == "0":
+                ck.violation("singular: %s" % SING[k], "%s returned normally (%s) although the matrix is exactly singular: the LAPACK info code is dropped" % (SING[k], "finite garbage" if i.split()[-1] == "1" else "non-finite values"),
+                             dict(kind="singular", cases=[c], impl=[i]))
+
     res = ck.proof_result
-    ck.cov.update(evaluations=len(acases) + sum(ldist.values()) + wn + 1, distinct_nontrivial=len(set(acases)) + sum(ldist.values()) + wn,
+    ck.cov.update(evaluations=len(acases) + sum(ldist.values()) + wn + 1 + sum(sdist.values()) + sum(xdist.values()) + len(gdist), distinct_nontrivial=len(set(acases)) + sum(ldist.values()) + wn,
                   rule="accessor cases: (method, nlin, ncol, arguments) with arguments aimed at the guard boundary (n-1, n, n+1, 2^31, 2^32-1, 2^32-n, 65535/65536, wrap-around ranges), shapes 0..%d, ~60%% expected to throw; lookups: every present name and 12 near-miss names on 4 lookup functions; I/O: prepared paths x entry points; write faults: every stream writer x 2 sizes x (boundary + random byte limits, /dev/full, missing directory); distinct = distinct case lines" % (7 if quick else 40),
                   samples=acases[:2] + ["c18 2 <kind> <name>", "c18 4 <kind> <fmt> <n> <k bytes>"], op_distribution=adist, expected_throws=throws,
                   accessor_mismatches=amis, lookup_io_distribution=ldist, lookup_io_mismatches=lmis,
-                  write_fault_distribution=wdist, write_fault_cases=wn, write_fault_mismatches=wmis, write_fault_file_size_equals_model=wexact,
+                  write_fault_distribution=wdist, write_fault_cases=wn, write_fault_mismatches=wmis, write_fault_file_size_equals_model=wexact, suffix_selection_distribution=sdist, suffix_selection_mismatches=smis, other_writers_distribution=xdist, other_writers_mismatches=xmis, singular_matrices=gdist,
                   big_symmatrix_witness=big, traces_validated_against_impl=len(acases) + sum(ldist.values()) + wn)
     ck.cov["trusted_base"] += ["translator translators/t_accessors.py (restricted C++ expression grammar -> Gallina with explicit 2^32 / 2^64 reduction); validated each run by evaluating the generated definitions against the real calls",
                                "outcome-class models coq/Geom/Lookups.v, coq/Maths/WriteFault.v (hand-written, tied by the sweeps)",
